@@ -205,7 +205,8 @@ def _ev(e, x):
     if h == 'nonpos':
         return x <= 0
     if h == 'finite':
-        return math.isfinite(x)
+        # (every int is a finite number, also one too large for a float - math.isfinite would overflow on it)
+        return (isinstance(x, int) and not isinstance(x, bool)) or bool(math.isfinite(x))
     if h == 'empty':
         return len(x) == 0
     if h == 'nonempty':
@@ -249,7 +250,7 @@ def _ev(e, x):
 def inner_types():
     import numpy
     return {
-        'int': (int, [-1, 0, 1, 4, 5, 6, 10 ** 20, -10 ** 20]),
+        'int': (int, [-1, 0, 1, 4, 5, 6, 10 ** 20, -10 ** 20, 10 ** 400]),      # (10**400: beyond any float, still a finite number)
         'float': (float, [-1, 0, 1, 4, 5, 6, 2.5, -0.0, 5.0, values.INF, -values.INF, values.NAN, 1e300, 4.999999999]),
         'str': (str, ['', 'a', 'ab', 'abc']),
         'list_int': (t.List[int], [[], [1], [1, 2], [1, 2, 3], [0]]),
